@@ -346,7 +346,7 @@ impl<'a> Gen<'a> {
             0 => Terminal::True,
             1 => Terminal::False,
             2 | 3 => {
-                if self.rng.chance(1, 40) {
+                if self.rng.chance(1, 10) {
                     // a lock value the constructors must refuse (0, 2^31): generated only if accepted
                     let v = if self.rng.chance(1, 2) { 0 } else { 0x8000_0000 };
                     match AbsLockTime::from_consensus(v) {
@@ -358,7 +358,7 @@ impl<'a> Gen<'a> {
                 }
             }
             4 | 5 => {
-                if self.rng.chance(1, 40) {
+                if self.rng.chance(1, 10) {
                     let v = if self.rng.chance(1, 2) { 0 } else { 0x8000_0000 };
                     match RelLockTime::from_consensus(v) {
                         Ok(t) => Terminal::Older(t),
